@@ -81,7 +81,7 @@ type c06Case struct {
 	Op        gen.Op           `json:"op"`
 	FaultAt   int              `json:"fault_at"` // index into the fault-free downstream call list (-1: none)
 	FaultKind string           `json:"fault_kind,omitempty"`
-	Repeat    int              `json:"repeat"` // client requests (same gateway)
+	Repeat    int              `json:"repeat"`              // client requests (same gateway)
 	Copies    int              `json:"copies,omitempty"`    // the same mutation sent this many times at once (0: off)
 	CopyMode  string           `json:"copy_mode,omitempty"` // "batch": one HTTP batch [m, m, ..]; "clients": concurrent client requests
 }
